@@ -158,6 +158,10 @@ def run(prop, seed, budget, ctx):
     gf, gn, gd, gh = inherit_alias.run_part(seed, budget)
     failures += gf; evaluations += gn; distinct |= gd
     for k_, v_ in gh.items(): hist[k_] += v_
+    import corners7
+    gf, gn, gd, gh = corners7.run_part("C11", seed, budget)
+    failures += gf; evaluations += gn; distinct |= gd
+    for k_, v_ in gh.items(): hist[k_] += v_
     import objmodel
     gf, gn, gd, gh = objmodel.run_part("C11", seed, budget)
     failures += gf; evaluations += gn; distinct |= gd
